@@ -20,17 +20,21 @@ def c02(tier, dev):
 # rows of other families are served by the dedicated modules of C14/C15 (tokenizer, conversions) and by the FMT
 # harness: their violations of *this* property's statement are selected by key and re-labelled
 FOREIGN = {
-    "C01": [("C15", r":store-|:wild-access"), ("C14", r":write-at-dmax|:wrote-outside-objects")],
-    "C02": [("C15", r":load-"), ("C14", r":read-at-dmax|:read-via-unset-ptr")],
-    "C03": [("C15", r":not-terminated|:no-space-accepted")],
-    "C04": [("C15", r":not-cleared")],
-    "C06": [("C15", r":no-space-accepted|:wrong-characters|:wrong-count")],
+    "C01": [("C01X", r"^C01:"), ("C15", r":store-|:wild-access"), ("C14", r":write-at-dmax|:wrote-outside-objects")],
+    "C02": [("C02X", r"^C02:"), ("C15", r":load-"), ("C14", r":read-at-dmax|:read-via-unset-ptr")],
+    "C03": [("C03X", r"^C03:"), ("C15", r":not-terminated|:no-space-accepted")],
+    "C04": [("C04X", r"^C04:"), ("C15", r":not-cleared")],
+    "C05": [("C05X", r"^C05:")],
+    "C06": [("C06X", r"^C06:"), ("C15", r":no-space-accepted|:wrong-characters|:wrong-count")],
+    "C08": [("C08X", r"^C08:")],
 }
 
 def foreign_campaigns(prop, tier):
     out = []
     for mod, rx in FOREIGN.get(prop, []):
         out.append(Campaign(mod, "plain", cases=(1500000 if tier == "quick" else 15000000), keymap=(rx, prop)))
+        if mod.endswith("X"):
+            out.append(Campaign(mod, "plain-noslack", cases=(400000 if tier == "quick" else 4000000), keymap=(rx, prop)))
     return out
 
 def two_builds(prop):
@@ -54,7 +58,7 @@ PROPS = {"C01": c01, "C02": c02, "C03": two_builds("C03"), "C04": two_builds("C0
          "C20": lambda tier, dev: run_cs_property("C20", tier, [Campaign("C20", "plain")], level="fault_enumeration", assumptions=ASSUME_GENERIC[:2] + ["allocation requests of the statically linked library are intercepted with -Wl,--wrap=malloc,calloc,realloc,free; allocations made inside libc on the library's behalf are not"], dev=dev),
          "C13": lambda tier, dev: run_cs_property("C13", tier, [Campaign("C13", "plain")], assumptions=ASSUME_GENERIC[:2] + ["the harness owns the schedule: real pthreads execute one operation at a time, so the interleaving is the generated sequence", "the default handler is observed through -Wl,--wrap=ignore_handler_s"], dev=dev),
          "C12": lambda tier, dev: run_cs_property("C12", tier, [Campaign("C12", "shared")], assumptions=["x86-64 Linux/glibc; the harness is linked against libsafec.so built from the working tree (gcc -O1 -fPIC); the writable PT_LOAD segment of the library minus RELRO is its static storage", "state kept inside libc on the library's behalf is libc's reentrancy, not judged", "the handler registration words str_handler/mem_handler are the allowed mutable state"], dev=dev),
-         "C05": lambda tier, dev: run_cs_property("C05", tier, [Campaign("C05", "plain")], assumptions=ASSUME_GENERIC, dev=dev)}
+         "C05": lambda tier, dev: run_cs_property("C05", tier, [Campaign("C05", "plain")] + foreign_campaigns("C05", tier), assumptions=ASSUME_GENERIC, dev=dev)}
 
 def external(prop, script):
     """properties decided by a self-contained program under props/ (same CLI contract)"""
